@@ -353,6 +353,44 @@ def _dynamic_name_is_dunder(repo, call):
     '__%s__' % x or '__r%s__' % x: the attribute name starts and ends with two underscores"""
     f = repo.enclosing_func(call)
     a = call.args[1]
+
+    def dunder_fmt(e):
+        if isinstance(e, ast.BinOp) and isinstance(e.op, ast.Mod):
+            e = e.left
+        s_ = const_str(e)
+        return bool(s_) and s_.startswith('__') and s_.endswith('__')
+    if f is None and isinstance(a, ast.Name):
+        # module level: `for name in NAMES: setattr(obj, name, ...)` with NAMES a module-level list built only from '__%s__' % x
+        # elements (display, comprehension, += of displays, append)
+        mod = call
+        while getattr(mod, 'parent', None) is not None:
+            mod = mod.parent
+        loops = [n for n in ast.walk(mod) if isinstance(n, ast.For) and isinstance(n.target, ast.Name) and n.target.id == a.id
+                 and any(x is call for x in ast.walk(n))]
+        if len(loops) != 1 or not isinstance(loops[0].iter, ast.Name):
+            return False
+        L = loops[0].iter.id
+        elems, okl = [], True
+        for n in ast.walk(mod):
+            if isinstance(n, ast.Assign) and any(isinstance(t, ast.Name) and t.id == L for t in n.targets):
+                v = n.value
+                if isinstance(v, (ast.List, ast.Tuple)):
+                    elems += v.elts
+                elif isinstance(v, ast.ListComp):
+                    elems.append(v.elt)
+                else:
+                    okl = False
+            elif isinstance(n, ast.AugAssign) and isinstance(n.target, ast.Name) and n.target.id == L:
+                if isinstance(n.op, ast.Add) and isinstance(n.value, (ast.List, ast.Tuple)):
+                    elems += n.value.elts
+                else:
+                    okl = False
+            elif isinstance(n, ast.Call) and isinstance(n.func, ast.Attribute) and isinstance(n.func.value, ast.Name) and n.func.value.id == L:
+                if n.func.attr == 'append' and len(n.args) == 1:
+                    elems.append(n.args[0])
+                else:
+                    okl = False
+        return okl and bool(elems) and all(dunder_fmt(e) for e in elems)
     if f is None or not isinstance(a, ast.Name) or a.id not in f.params or f.parent is not None:
         return False
     idx = f.params.index(a.id)
